@@ -335,7 +335,7 @@ inductive Op
   | add (t : Transfer)                        -- `await add(t)`, no listener suspends
   | addCall (t : Transfer)                    -- `add(t)` up to the suspended `TransferAddedEvent` listener
   | addRet (id : Ident)                       -- that listener resumes, `add()` returns
-  | mut (t : Transfer)                        -- attributes of the listed transfer with this identity overwritten
+  | edit (t : Transfer)                       -- attributes of the listed transfer with this identity overwritten
   | rm (id : Ident) (now : Nat)               -- `await remove(t)`, no listener suspends
   | rmCall (id : Ident) (now : Nat)           -- `remove(t)` up to its first suspended listener
   | rmStep (id : Ident)                       -- that listener resumes, up to the next one / the return
@@ -403,10 +403,12 @@ def doRmCall (s : Sys K) (id : Ident) (now : Nat) (gated : Bool) : Sys K × Out 
       | some q' =>
         -- the transition to ABORTED is announced to the state listeners (the manager's own requests a cycle)
         let s := { s with mgr := { s.mgr with
-                     transfers := s.mgr.transfers.map (fun x => if ident x = id then { q' with listeners := x.listeners, tasks := x.tasks, hasOffset := x.hasOffset } else x),
+                     transfers := s.mgr.transfers.map (fun x => if ident x = id then q' else x),
                      cycleRequested := true } }
         if gated then ({ s with pending := s.pending ++ [{ id := id, phase := .aborting, tainted := false }] }, .aborting)
-        else ({ detach s id false with mgr := { (detach s id false).mgr with cycleRequested := true } }, .done)
+        else
+          let s := detach s id false
+          ({ s with mgr := { s.mgr with cycleRequested := true } }, .done)
       | none =>
         let s := detach s id false
         if gated then ({ s with pending := s.pending ++ [{ id := id, phase := .announcing, tainted := false }] }, .announcing)
@@ -431,8 +433,8 @@ def doMut (s : Sys K) (t : Transfer) : Sys K × Out :=
   | some i =>
     match s.mgr.transfers[i]? with
     | some q =>
-      ({ s with mgr := { s.mgr with transfers :=
-          setAt s.mgr.transfers i { t with user := q.user, path := q.path, dir := q.dir, listeners := q.listeners } } }, .ok)
+      let t' : Transfer := { t with user := q.user, path := q.path, dir := q.dir, listeners := q.listeners }
+      ({ s with mgr := { s.mgr with transfers := setAt s.mgr.transfers i t' } }, .ok)
     | none => (s, .notFound)
   | none => (s, .notFound)
 
@@ -461,7 +463,7 @@ def step (H : ByteArray → K) (s : Sys K) : Op → Sys K × Out
   | .add t => doAdd s t false
   | .addCall t => doAdd s t true
   | .addRet id => doAddRet s id
-  | .mut t => doMut s t
+  | .edit t => doMut s t
   | .rm id now => doRmCall s id now false
   | .rmCall id now => doRmCall s id now true
   | .rmStep id => doRmStep s id
